@@ -7,6 +7,7 @@ import (
 	"flag"
 	"fmt"
 	"os"
+	"runtime"
 	"runtime/debug"
 	"sort"
 	"strings"
@@ -77,6 +78,8 @@ type Result struct {
 	Samples      []string       `json:"samples"`
 	Error        string         `json:"error,omitempty"`
 }
+
+var memDebug = os.Getenv("VERIF_MEMDEBUG") != ""
 
 func mix(seed uint64, idx int) uint64 {
 	x := seed*0x9e3779b97f4a7c15 + uint64(idx)*0xbf58476d1ce4e5b9 + 0x94d049bb133111eb
@@ -267,6 +270,18 @@ func run(args []string) {
 		if *hashlog {
 			fmt.Printf("%d %016x %s %s %d\n", idx, c.Hash, v.Status, v.Clause, c.Steps)
 			continue
+		}
+		if memDebug {
+			var ms runtime.MemStats
+			runtime.ReadMemStats(&ms)
+			if ms.HeapAlloc > 1<<30 {
+				smp := c.Sample
+				if len(smp) > 600 {
+					smp = smp[:600]
+				}
+				fmt.Fprintf(os.Stderr, "MEMDEBUG case %d heap %d MB steps %d incs %d: %s\n", idx, ms.HeapAlloc>>20, c.Steps, c.Incs, smp)
+				runtime.GC()
+			}
 		}
 		res.Cases++
 		res.Incarnations += c.Incs
